@@ -149,8 +149,8 @@ pub fn start_udp(make: impl FnOnce(u16) -> aquatic_udp::config::Config) -> Resul
                 return Ok(t);
             }
         }
-        if start.elapsed() > Duration::from_secs(15) {
-            return Err("tracker did not answer a connect request within 15 s".into());
+        if start.elapsed() > Duration::from_secs(60) {
+            return Err("tracker did not answer a connect request within 60 s".into());
         }
     }
 }
@@ -243,8 +243,8 @@ pub fn start_http(make: impl FnOnce(u16) -> aquatic_http::config::Config) -> Res
             std::thread::sleep(Duration::from_millis(100));
             return Ok(t);
         }
-        if start.elapsed() > Duration::from_secs(15) {
-            return Err("http tracker did not accept a connection within 15 s".into());
+        if start.elapsed() > Duration::from_secs(60) {
+            return Err("http tracker did not accept a connection within 60 s".into());
         }
         std::thread::sleep(Duration::from_millis(20));
     }
@@ -437,8 +437,8 @@ pub fn start_ws(make: impl FnOnce(u16) -> aquatic_ws::config::Config) -> Result<
             std::thread::sleep(Duration::from_millis(150));
             return Ok(t);
         }
-        if start.elapsed() > Duration::from_secs(15) {
-            return Err("ws tracker did not accept a connection within 15 s".into());
+        if start.elapsed() > Duration::from_secs(60) {
+            return Err("ws tracker did not accept a connection within 60 s".into());
         }
         std::thread::sleep(Duration::from_millis(20));
     }
